@@ -131,8 +131,12 @@ WKS_CLASS = "wks-overwrites-sap"
 
 E = nfc.llcp.errno
 WELL_KNOWN = {"urn:nfc:sn:sdp": 1, "urn:nfc:sn:snep": 4}
+# (some names are long: two or three lookups of them do not fit one SNL PDU
+# of a small link MIU together, a short one behind them does)
+_PAD = {3: 34, 7: 44, 9: 74, 11: 4}
 VALID = (["urn:nfc:sn:svc%d" % i for i in range(12)]
-         + ["urn:nfc:xsn:example.org:x%d" % i for i in range(12)])
+         + ["urn:nfc:xsn:example.org:x%d%s" % (i, "y" * _PAD.get(i, 0))
+            for i in range(12)])
 MALFORMED = ["", "snep", "urn:nfc:sn:", "urn:nfc:zn:foo", "http://example.org",
              "urn:nfc:sn:with space", "urn:nfc:xsn:", "urn:nfc:sn:9lives"]
 NAME_POOL = sorted(WELL_KNOWN) + VALID + MALFORMED
@@ -1055,6 +1059,15 @@ def run_machine(case, ctx):
             idle = idle + 1 if after == before else 0
             if idle >= 2:
                 break
+        if idle >= 2:
+            # the link is quiet: every lookup has had its answer ("... or
+            # report absence")
+            settle(w)
+            for kind, s_, box, info in w.pending:
+                if kind == "resolve" and not box.done:
+                    fail(w, "resolve-never-answered", "resolve(%r) at %s is "
+                         "still waiting although the link has been quiet for "
+                         "two exchange rounds" % (info[1], info[0]))
         for c in w.conns:
             if c.broken:
                 continue
@@ -1144,6 +1157,12 @@ OPS = {
                        st.integers(0, len(VALID) - 1),
                        st.sampled_from(["resolve", "resolve", "none"]),
                        st.sampled_from(["other", "other", "none", "same"])),
+    # several lookups outstanding at once: they share SNL PDUs as far as the
+    # link MIU allows (names of very different lengths, bound and unbound)
+    "lookups": st.tuples(st.just("lookups"), side_, st.lists(
+        st.one_of(st.sampled_from([NAME_POOL.index(n) for n in VALID
+                                   if len(n) > 40]),
+                  st.integers(0, 200)), min_size=2, max_size=5)),
     "recvall": st.tuples(st.just("recvall"), side_, idx_),
     "closerole": st.tuples(st.just("closerole"), side_, idx_,
                            st.sampled_from(["conn", "conn", "accepted",
@@ -1171,7 +1190,8 @@ WEIGHTS = (["x"] * 3 + ["pump"] * 6 + ["sock"] * 2 + ["bind"] * 6
            + ["connect"] * 6 + ["send"] * 3 + ["recv"] * 3 + ["sendto"] * 5
            + ["recvfrom"] * 3 + ["ldlconnect"] + ["resolve"] * 5
            + ["close"] * 9 + ["service"] * 5 + ["stale"] * 3
-           + ["recvall"] * 3 + ["closerole"] * 3 + ["session"] * 3)
+           + ["recvall"] * 3 + ["closerole"] * 3 + ["session"] * 3
+           + ["lookups"] * 3)
 
 
 def session_ops(side, i1, how, orders, nmsg, close_listener, rebind):
@@ -1255,6 +1275,10 @@ def machine_case(draw, max_steps):
                     ["pump", side]]
         elif o[0] == "session":
             ops += session_ops(*o[1:])
+        elif o[0] == "lookups":
+            _, side, vals = o
+            ops += [["resolve", side, v] for v in vals]
+            ops += [["pump", side]] * 3
         else:
             ops.append(list(o))
     return {"miu": [draw(st.sampled_from([128, 248, 2175])),
